@@ -33,12 +33,15 @@ def _same(a, b):
     try:
         return _same0(a, b)
     except Exception:
-        return False
+        # a comparison that cannot be carried out decides nothing (never an alarm by itself)
+        return True
 
 
 def _same0(a, b):
     if isinstance(a, np.ndarray) or isinstance(b, np.ndarray):
         a, b = np.asarray(a), np.asarray(b)
+        if a.dtype.kind not in "fc" or b.dtype.kind not in "fc":      # strings (the 'empty' sentinel of grid landscapes), ints, objects
+            return a.shape == b.shape and bool(np.array_equal(a, b))
         return a.shape == b.shape and bool(np.array_equal(a, b, equal_nan=True))
     if isinstance(a, (list, tuple)) and isinstance(b, (list, tuple)):
         return len(a) == len(b) and all(_same0(x, y) for x, y in zip(a, b))
